@@ -112,6 +112,17 @@ type c18World struct {
 
 func (w *c18World) close() { os.RemoveAll(w.root) }
 
+// newC18WorldN builds an intact archive with n files (n == 3 gives the
+// standard small world).
+func newC18WorldN(format string, seed int64, n int) (*c18World, error) {
+	c18ExtraFiles = n - 3
+	defer func() { c18ExtraFiles = 0 }()
+	return newC18World(format, seed, "intact", false)
+}
+
+var c18ExtraFiles int
+var c18Content string
+
 func newC18World(format string, seed int64, state string, forCreate bool) (*c18World, error) {
 	rng := rand.New(rand.NewSource(seed))
 	root, err := os.MkdirTemp("", "c18-")
@@ -127,12 +138,27 @@ func newC18World(format string, seed int64, state string, forCreate bool) (*c18W
 		for i, n := range []int{70, 33, 48} {
 			w.files = append(w.files, scen.File{Name: []string{"f0.bin", "sub/f1.bin", "f2.bin"}[i], Data: scen.GenData(rng, "random", n, 16)})
 		}
+		// f1 ends in a zero byte inside its short last slice
+		w.files[1].Data[32] = 0
+		if c18Content == "dup" {
+			// duplicate slices inside and across files: f0 = A B A c, f2 = B B D
+			a, b := w.files[0].Data[0:16], w.files[0].Data[16:32]
+			copy(w.files[0].Data[32:48], a)
+			copy(w.files[2].Data[0:16], b)
+			copy(w.files[2].Data[16:32], b)
+		}
 	} else {
 		w.blocks = 2
 		w.idxName = "a.par"
 		for i, n := range []int{60, 0, 35} {
 			w.files = append(w.files, scen.File{Name: []string{"f0.bin", "f1.bin", "f2 x.bin"}[i], Data: scen.GenData(rng, "random", n, 16)})
 		}
+	}
+	for i := 0; i < c18ExtraFiles; i++ {
+		w.files = append(w.files, scen.File{Name: fmt.Sprintf("extra%d.bin", i), Data: scen.GenData(rng, "random", 20+rng.Intn(60), 16)})
+	}
+	if c18ExtraFiles > 0 {
+		w.blocks = 4
 	}
 	var paths []string
 	for _, f := range w.files {
